@@ -6,6 +6,8 @@ CONSTANTS
   DirOf <- DirOfDef
   Sids <- SidsDef
   SnapFam <- SnapFamDef
+  DataOf <- DataOfDef
   Mutant = "none"
 INVARIANT CacheTransparent
+INVARIANT ChunksSafe
 CHECK_DEADLOCK FALSE
